@@ -94,10 +94,10 @@ Proof. intros l n H Hn. unfold emit_comp in H. repeat (apply in_app_or in H; des
 Lemma step_prefix cs s cs' : step cs s = OK cs' -> c_prefix (fst cs') = c_prefix (fst cs).
 Proof. destruct cs as [c ctr]. destruct s; simpl.
   - destruct items as [|[ps| |] [|i2 items]]; simpl;
-      try (unfold add_super_sequence; destruct (seq_defined c name); [discriminate|];
+      try (unfold add_super_sequence; destruct (is_anon name); [discriminate|]; destruct (seq_defined c name); [discriminate|];
            destruct (clean_const c _) as [k|]; [|discriminate]; simpl;
            destruct (build_super c ctr k len) as [[[s a] ctr']|]; [|discriminate]; simpl; intros H; inversion H; reflexivity).
-    unfold add_sequence. destruct (seq_defined c name); [discriminate|].
+    unfold add_sequence. destruct (is_anon name); [discriminate|]. destruct (seq_defined c name); [discriminate|].
     destruct (Comp.Wild.get_length_const len ps); simpl; intros H; inversion H; reflexivity.
   - unfold add_strand. destruct (ahas (c_strands c) name); [discriminate|].
     destruct (clean_const c items) as [k|]; [|discriminate]. simpl.
